@@ -5,6 +5,7 @@ import (
 	"fmt"
 	"io"
 	"runtime"
+	"sync"
 	"time"
 
 	"github.com/VolantMQ/vlapi/mqttp"
@@ -50,6 +51,10 @@ func (p *c12Prop) Header() string {
 }
 func (p *c12Prop) Parallel() int { return 6 }
 
+// the "oversize" kind measures what the PROCESS allocates while one header is handled: no other case may
+// run (and allocate) at that time
+var c12Excl sync.RWMutex
+
 func (p *c12Prop) Gen(r *Rng, i int, tier string) interface{} {
 	switch i % 10 {
 	case 6, 7:
@@ -90,6 +95,13 @@ func (p *c12Prop) Decode(raw json.RawMessage) (interface{}, error) {
 func (p *c12Prop) Run(ci interface{}) interface{} {
 	c := ci.(*c12Case)
 	obs := &c12Obs{}
+	if c.Kind == "oversize" {
+		c12Excl.Lock()
+		defer c12Excl.Unlock()
+	} else {
+		c12Excl.RLock()
+		defer c12Excl.RUnlock()
+	}
 	ver := mqttp.ProtocolV311
 	if c.V5 {
 		ver = mqttp.ProtocolV50
